@@ -277,6 +277,10 @@ func (c *channelInstance) verifyAndDecrypt(m *MessageChunk, r []byte) ([]byte, e
 		headerLength += m.SymmetricSecurityHeader.Len()
 	}
 
+	if len(r) < headerLength {
+		return nil, ua.StatusBadSecurityChecksFailed
+	}
+
 	b := make([]byte, len(r))
 	copy(b, r)
 
@@ -288,6 +292,11 @@ func (c *channelInstance) verifyAndDecrypt(m *MessageChunk, r []byte) ([]byte, e
 		b = append(b[:headerLength], p...)
 	}
 
+	// the chunk must at least hold the headers and the signature
+	if len(b) < headerLength+c.algo.RemoteSignatureLength() {
+		return nil, ua.StatusBadSecurityChecksFailed
+	}
+
 	signature := b[len(b)-c.algo.RemoteSignatureLength():]
 	messageToVerify := b[:len(b)-c.algo.RemoteSignatureLength()]
 
@@ -297,6 +306,9 @@ func (c *channelInstance) verifyAndDecrypt(m *MessageChunk, r []byte) ([]byte, e
 
 	var paddingLength int
 	if c.sc.cfg.SecurityMode == ua.MessageSecurityModeSignAndEncrypt || isAsymmetric {
+		if len(messageToVerify) < headerLength+2 {
+			return nil, ua.StatusBadSecurityChecksFailed
+		}
 		paddingLength = int(messageToVerify[len(messageToVerify)-1])
 		if c.algo.SignatureLength() > 256 {
 			paddingLength <<= 8
@@ -304,6 +316,10 @@ func (c *channelInstance) verifyAndDecrypt(m *MessageChunk, r []byte) ([]byte, e
 			paddingLength += 1
 		}
 		paddingLength += 1
+	}
+
+	if len(messageToVerify)-paddingLength < headerLength {
+		return nil, ua.StatusBadSecurityChecksFailed
 	}
 
 	b = messageToVerify[headerLength : len(messageToVerify)-paddingLength]
